@@ -55,7 +55,7 @@ def init_log_oracle(c):
             why = []
             if actual not in names:
                 return ('constructed-unregistered', f'__init__ of unregistered class {actual} ran for {c.text!r}')
-            if util.is_abstract(c.model.cls(actual)):
+            if oracles.is_abstract_doc(c.model.cls(actual)):
                 return ('constructed-abstract', f'__init__ of abstract class {actual} ran for {c.text!r}')
             if not oracles.kwargs_conform(c.model, actual, kw, why):
                 return (f'init-nonconforming:{c.desc.split("+")[0]}',
